@@ -1200,6 +1200,18 @@ def cmp_apply(prog: Program) -> RuleResult:
         r.check(key not in bad, f"Comparator.apply_operation#{key}", site(f), f"{len(paths)} paths", good,
                 (bad.get(key) or "") + ": the comparison answers from something other than the operand values of this assignment, so rows are reported that do not satisfy the "
                 "condition, or satisfying rows are dropped")
+    # whether two operands are compared as collections is decided by utils.is_iterable: text is no collection - and neither is a value of a
+    # *subclass* of a text type (a str-valued Enum member, class Tag(str), numpy.str_): the exclusion has to be an isinstance test, not a
+    # lookup of the exact type ("listen" == "silent" as sets of characters otherwise)
+    from ..model import walk_local as _wl
+    isit = next((f_ for f_ in prog.functions.values() if f_.name == "is_iterable" and f_.cls is None and f_.module.name.endswith("entity_query_language.utils")), None)
+    if isit is None:
+        raise AnalysisError("CMP-APPLY: entity_query_language.utils.is_iterable vanished")
+    exact = [x for x in _wl(isit.node) if isinstance(x, ast.Compare) and any(isinstance(y, ast.Call) and isinstance(y.func, ast.Name) and y.func.id == "type" for y in ast.walk(x))]
+    inst = [x for x in _wl(isit.node) if isinstance(x, ast.Call) and isinstance(x.func, ast.Name) and x.func.id == "isinstance" and len(x.args) == 2 and "str" in src(x.args[1]) and "bytes" in src(x.args[1])]
+    r.check(bool(inst) and not exact, "is_iterable#text-excluded-with-its-subclasses", f"{isit.module.relpath}:{isit.node.lineno}", src((exact or inst or [isit.node])[0])[:80], "str / bytes values are excluded by isinstance",
+            f"`{src(exact[0])[:60] if exact else 'no isinstance test on (str, bytes)'}` tells text from collections by the exact type: a value of a str subclass counts as a collection and two such "
+            "values are compared as sets of their characters - x.tag != y.tag drops pairs of anagrams, x.mode == NO holds for ON")
     return r
 
 
@@ -1321,7 +1333,31 @@ def hv_ident(prog: Program) -> RuleResult:
                 f"identifier, and the domain cache - keyed by it - keeps one of them (entity(x, x < 1) over [3, -1, 0, -2] misses -2)")
     if n < 1:
         raise AnalysisError("HV-IDENT: HashedValue no longer assigns id_")
+    # ... and a value is taken for a wrapper to unwrap (its id_ adopted, its .value taken in its place) only when it *is* one: a user object
+    # that happens to have fields named id_ and value is a value
+    pi = hv.methods.get("__post_init__")
+    if pi is not None:
+        duck = None
+        for t in [x for x in walk_local(pi.node) if isinstance(x, ast.If)]:
+            adopts = any(isinstance(y, ast.Assign) and any(is_self_attr(tg, "value") for tg in y.targets) and isinstance(y.value, ast.Attribute) and y.value.attr == "value" for b in t.body for y in ast.walk(b))
+            if not adopts:
+                continue
+            by_class = any(isinstance(c_, ast.Call) and isinstance(c_.func, ast.Name) and c_.func.id == "isinstance" and len(c_.args) == 2 and "HashedValue" in src(c_.args[1]) for c_ in ast.walk(t.test))
+            if not by_class:
+                duck = duck or t
+        r.check(duck is None, f"{pi.short}#unwraps-hashed-values-only", site(pi, duck) if duck is not None else site(pi), src(duck.test)[:80] if duck is not None else "isinstance(..., HashedValue)",
+                "a nested wrapper is recognised by its class",
+                f"`{src(duck.test)[:70] if duck is not None else ''}` takes any object with such attributes for a wrapper: a domain element that has fields named `id_` and `value` is replaced by its `.value`, and "
+                "two elements with equal `id_` become one")
     return r
+
+
+def _pred_once(prog):
+    # 'predicates ... as values': the value bound for a predicate over variables is its verdict (the instance called), also where it is
+    # compared, tested for membership or selected
+    from .c12 import pred_once
+
+    return pred_once(prog)
 
 
 def _ident_dedup(prog):
@@ -1364,4 +1400,4 @@ def run(prog: Program, tier: str) -> List[RuleResult]:
     from .c03 import domain_cache
 
     _cache.clear()
-    return [guard(lambda: ep_thread(prog)), guard(lambda: ep_neg(prog)), guard(lambda: ep_filter(prog)), guard(lambda: ep_selected(prog)), guard(lambda: ep_union_pass(prog)), guard(lambda: ep_operand(prog)), guard(lambda: domain_cache(prog)), guard(lambda: ep_universal(prog)), guard(lambda: ep_empty(prog)), guard(lambda: ep_quant(prog)), guard(lambda: _ep_bound(prog)), guard(lambda: cmp_apply(prog)), guard(lambda: _live_iter(prog)), guard(lambda: _hv_truth(prog)), guard(lambda: cond_fold(prog)), guard(lambda: _domain_given(prog)), guard(lambda: hv_ident(prog)), guard(lambda: _ident_dedup(prog))]
+    return [guard(lambda: ep_thread(prog)), guard(lambda: ep_neg(prog)), guard(lambda: ep_filter(prog)), guard(lambda: ep_selected(prog)), guard(lambda: ep_union_pass(prog)), guard(lambda: ep_operand(prog)), guard(lambda: domain_cache(prog)), guard(lambda: ep_universal(prog)), guard(lambda: ep_empty(prog)), guard(lambda: ep_quant(prog)), guard(lambda: _ep_bound(prog)), guard(lambda: cmp_apply(prog)), guard(lambda: _live_iter(prog)), guard(lambda: _hv_truth(prog)), guard(lambda: cond_fold(prog)), guard(lambda: _domain_given(prog)), guard(lambda: hv_ident(prog)), guard(lambda: _ident_dedup(prog)), guard(lambda: _pred_once(prog))]
